@@ -292,3 +292,25 @@ Example ex_carry_hops :
              (VSeq false [SInt 1; SInt 2])
   = Done [(codes "a:b", VArr1 DInt [FFin 8; FFin 16])] [].
 Proof. vm_compute. split; reflexivity. Qed.
+
+(* section assignment replaces the section and converts its entries *)
+Example ex_section_assignment :
+  cfg_setsection table feats (codes "Setup")
+    [(codes "Channel Width", VS (SStr (codes "20")));
+     (codes "peter", VS SNone)]
+    [(codes "setup", [(codes "medium", VS (SStr (codes "old")))])]
+  = CDone [(codes "setup", [(codes "channel width", VS (SFloat (FFin 160)))])]
+          [WUnknown; WBadValue].
+Proof. vm_compute. reflexivity. Qed.
+
+Example ex_not_header_and_entry_before_header :
+  not_header (codes "a = 1") /\
+  split_first 61 (strip (before_hash (codes "a = 1")))
+  = Some (codes "a ", codes " 1").
+Proof. split; vm_compute; reflexivity. Qed.
+
+Example ex_number_roundtrip :
+  apply CFnumber (VS (SBool true)) = Ok (VS (SBool true)) /\
+  h5 (VS (SBool true)) = Ok (VS (SNpBool true)) /\
+  apply CFnumber (VS (SNpBool true)) = Ok (VS (SFloat (FFin 8))).
+Proof. vm_compute. repeat split; reflexivity. Qed.
